@@ -23,6 +23,8 @@ struct Twin {
     a: Sess,
     b: Sess,
     restore_every: bool,
+    /// store format: binary, JSON document, or alternating
+    json: u8,
     restores: usize,
     steps: usize,
     trail: Vec<String>,
@@ -42,9 +44,14 @@ impl Twin {
         if self.restore_every || rng.next_u32() % 3 == 0 {
             c.eval();
             c.distinct(&format!("restore/{}/{}/{}/{}", self.name, at, self.b.stage.name(), self.steps));
-            if let Err(e) = self.b.restore() {
+            let as_json = self.json == 1 || (self.json == 2 && self.steps % 2 == 0);
+            let r = if as_json { self.b.restore_json() } else { self.b.restore() };
+            if as_json {
+                c.count("restores_through_json", 1);
+            }
+            if let Err(e) = r {
                 c.violation(
-                    &format!("C20 restore-failed stage={}", self.b.stage.name()),
+                    &format!("C20 restore-failed stage={}{}", self.b.stage.name(), if as_json { " format=json" } else { "" }),
                     json!({"error": e, "at": at, "trail": self.trail}),
                 );
                 return false;
@@ -115,7 +122,7 @@ fn bad_reply(rng: &mut impl RngCore) -> Vec<u8> {
     b
 }
 
-fn run_twin(c: &mut Ctx, m: &'static Merchant, name: &str, cust0: u64, merch0: u64, steps: usize, restore_every: bool, zero_draw: Option<usize>) {
+fn run_twin(c: &mut Ctx, m: &'static Merchant, name: &str, cust0: u64, merch0: u64, steps: usize, restore_every: bool, crafted: Option<(usize, [u8; 64])>, json: u8) {
     let mut rng = c.rng(name);
     let ctxb = name.as_bytes().to_vec();
     let cid = new_channel_id(m, &mut rng, b"m", b"c");
@@ -123,14 +130,15 @@ fn run_twin(c: &mut Ctx, m: &'static Merchant, name: &str, cust0: u64, merch0: u
     let seed = seed_of(&mut rng);
     // optional crafted randomness: one scalar sample of the request is zero on both tracks (a zero
     // blinding factor, nonce or secret is a value the customer can hold; it must restore like any other)
-    let scripted = |z: Option<usize>| {
+    let zero_draw = crafted;
+    let scripted = |z: Option<(usize, [u8; 64])>| {
         let mut r = ScriptRng::new(seed);
-        if let Some(k) = z {
+        if let Some((k, pat)) = z {
             let mut dry = ScriptRng::new(seed);
             let _ = Sess::request(m, &mut dry, cid, cust0, merch0, &ctxb);
             let d64 = dry.draws_of_len(64);
             if !d64.is_empty() {
-                r.inject(d64[k % d64.len()], vec![0u8; 64]);
+                r.inject(d64[k % d64.len()], pat.to_vec());
             }
         }
         r
@@ -138,7 +146,7 @@ fn run_twin(c: &mut Ctx, m: &'static Merchant, name: &str, cust0: u64, merch0: u
     let ra = Sess::request(m, &mut scripted(zero_draw), cid, cust0, merch0, &ctxb);
     let rb = Sess::request(m, &mut scripted(zero_draw), cid, cust0, merch0, &ctxb);
     if zero_draw.is_some() {
-        c.count("histories_with_a_zero_scalar_sample", 1);
+        c.count("histories_with_a_crafted_scalar_sample", 1);
     }
     let ((a, pa), (b, pb)) = match (ra, rb) {
         (Ok(x), Ok(y)) => (x, y),
@@ -147,7 +155,7 @@ fn run_twin(c: &mut Ctx, m: &'static Merchant, name: &str, cust0: u64, merch0: u
     if pa != pb {
         return c.inconclusive("C20: identical RNG streams gave different establish proofs");
     }
-    let mut t = Twin { a, b, restore_every, restores: 0, steps: 0, trail: vec![format!("open {} {}", cust0, merch0)], name: name.to_string() };
+    let mut t = Twin { a, b, restore_every, json, restores: 0, steps: 0, trail: vec![format!("open {} {}", cust0, merch0)], name: name.to_string() };
     macro_rules! tryo {
         ($e:expr) => {
             match $e {
@@ -206,11 +214,11 @@ fn run_twin(c: &mut Ctx, m: &'static Merchant, name: &str, cust0: u64, merch0: u
         t.trail.push(format!("pay {}", amt));
         let seed = seed_of(&mut rng);
         // start on both tracks with identical randomness
-        let mk = |z: Option<usize>| {
+        let mk = |z: Option<(usize, [u8; 64])>| {
             let mut r = ScriptRng::new(seed);
-            if let Some(k) = z {
+            if let Some((k, pat)) = z {
                 // scalar draws of start are 64-byte draws; aim at one of the first forty
-                r.inject_nth_of_len(64, (k * 7 + step * 3) % 40, vec![0u8; 64]);
+                r.inject_nth_of_len(64, (k * 7 + step * 3) % 40, pat.to_vec());
             }
             r
         };
@@ -318,23 +326,46 @@ pub fn run(c: &mut Ctx) {
     for _ in 0..nrand {
         all.push((shaped_u64(&mut rng) & MAXB, shaped_u64(&mut rng) & MAXB));
     }
-    for (i, (cust, merch)) in all.into_iter().enumerate() {
-        for every in [true, false] {
-            let name = format!("twin{}/{}-{}/{}", i, cust, merch, if every { "every" } else { "random" });
+    // crafted scalar samples: zero, and the close tag (a value the nonce generator must never return and
+    // the nonce decoder refuses)
+    let mut close_pat = [0u8; 64];
+    close_pat[..32].copy_from_slice(&crate::refs::close_tag_ref().to_bytes());
+    let patterns: [(&str, [u8; 64]); 2] = [("zero", [0u8; 64]), ("close-tag", close_pat)];
+    // balances around 2^53 (the largest integer every JSON consumer represents exactly) come first in the
+    // JSON passes
+    let json_pairs: Vec<(u64, u64)> = vec![((1 << 53) - 11, 100), (100, (1 << 53) - 3), (1 << 53, 1 << 53), (MAXB, 0), (0, MAXB), (10, 1000)];
+    for (i, (cust, merch)) in json_pairs.into_iter().enumerate() {
+        if i >= c.tier.pick(4usize, 6) {
+            break;
+        }
+        for mode in [1u8, 2] {
+            let name = format!("twin-json{}/{}-{}/{}", i, cust, merch, if mode == 1 { "json" } else { "alternating" });
             c.case(&name, |c| {
-                if let Err(p) = guard(|| run_twin(c, m, &name, cust, merch, steps, every, None)) {
+                if let Err(p) = guard(|| run_twin(c, m, &name, cust, merch, steps.min(4), true, None, mode)) {
                     c.violation(&format!("C20 panic loc={}", repo_rel(&p.location)), json!({"panic": p.message}));
                 }
             });
         }
-        // crafted randomness: the i-th scalar sample of the request (and one of each start) is zero
-        if i < c.tier.pick(14usize, 40) {
-            let name = format!("twin{}/{}-{}/zero-sample{}", i, cust, merch, i);
+    }
+    for (i, (cust, merch)) in all.into_iter().enumerate() {
+        for every in [true, false] {
+            let name = format!("twin{}/{}-{}/{}", i, cust, merch, if every { "every" } else { "random" });
             c.case(&name, |c| {
-                if let Err(p) = guard(|| run_twin(c, m, &name, cust, merch, steps.min(3), true, Some(i))) {
+                if let Err(p) = guard(|| run_twin(c, m, &name, cust, merch, steps, every, None, if i % 5 == 4 { 2 } else { 0 })) {
                     c.violation(&format!("C20 panic loc={}", repo_rel(&p.location)), json!({"panic": p.message}));
                 }
             });
+        }
+        // crafted randomness: the i-th scalar sample of the request (and one of each start) is zero / the close tag
+        if i < c.tier.pick(14usize, 40) {
+            for (pname, pat) in patterns.iter() {
+                let name = format!("twin{}/{}-{}/{}-sample{}", i, cust, merch, pname, i);
+                c.case(&name, |c| {
+                    if let Err(p) = guard(|| run_twin(c, m, &name, cust, merch, steps.min(3), true, Some((i, *pat)), 0)) {
+                        c.violation(&format!("C20 panic loc={}", repo_rel(&p.location)), json!({"panic": p.message}));
+                    }
+                });
+            }
         }
     }
 }
